@@ -91,7 +91,7 @@ Theorem C07_src_tag_sites :
   /\ site_uses_tags "check_parameterised" "exceptions" = [true; true]
   /\ site_uses_tags "check_parameterised" "redirects" = [false]
   /\ site_uses_tags "get_csp_directives" "csp" = [true]
-  /\ site_uses_tags "check_generic_hide" "generic_hide" = [false]
+  /\ site_uses_tags "check_generic_hide" "generic_hide" = [true]
   /\ site_uses_tags "apply_removeparam" "removeparam_filters" = [false]
   /\ removeparam_source = "removeparam"%string
   /\ List.length tag_sites = 9%nat.
